@@ -3,6 +3,7 @@
    of every defined type with, per method, membership in the method set of T; the signature type terms. *)
 From Coq Require Import List String ZArith Bool.
 From GG Require Import Base.Strs Model.GoTypes Model.GoAst Model.Annots Model.Analyze Model.Impl Extracted Exec Proofs.ImplProofs.
+From GG Require Proofs.DiagProofs Proofs.WholeProofs.
 Import ListNotations.
 Local Open Scope string_scope.
 
@@ -114,6 +115,20 @@ Example C05_nonvacuous :
   impl_candidates (ex_tt (mk_sig [YPtr (YPtr tint); tbytes2]) false) "x" [] [ex_ann true] = [].
 Proof. vm_compute. repeat split; reflexivity. Qed.
 
+(* END TO END: in the result of the whole per-package analysis the diagnostics with an IMPL code are exactly the three-phase
+   @implements check above, run on the annotations the reader collected from this package (own), filtered by the suppression the
+   package's @ignore comments and exclude-checks give *)
+Theorem C05_whole_analysis :
+  forall cfg p all own ds, x_analyze cfg p all = AOk own ds ->
+    exists ops, x_ignore_ops cfg p = Some ops /\ own = x_read_all cfg p /\
+      forall d, In (d_code d) DiagProofs.IMPL_CODES ->
+        (In d ds <-> In d (impl_candidates (p_types p) (p_path p) (p_imports p) (an_impl own)) /\ x_suppressed ops (d_code d) (d_pos d) = false).
+Proof.
+  intros cfg p all own ds Hres.
+  destruct (WholeProofs.section_of_code cfg p all own ds Hres) as (ops & Ho & Hown & Hsec). exists ops. split; [exact Ho|]. split; [exact Hown|].
+  intros d Hc. destruct (Hsec d) as (Hx & _). rewrite (Hx Hc). unfold x_impl, report_filter. rewrite filter_In, negb_true_iff, <- Hown. reflexivity.
+Qed.
+
 Print Assumptions C05_qualifier_resolution.
 Print Assumptions C05_no_qualifier_is_the_current_package.
 Print Assumptions C05_impl01_iff.
@@ -129,3 +144,4 @@ Print Assumptions C05_identical_equivalence.
 Print Assumptions C05_identical_structure.
 Print Assumptions C05_signature_matching_exact.
 Print Assumptions C05_signature_matching.
+Print Assumptions C05_whole_analysis.
